@@ -233,7 +233,8 @@ class Tr:
             for d in ks:
                 if d.get("kind") == "VarDecl":
                     init = [c for c in kids(d) if "Expr" in c.get("kind", "") or c.get("kind", "").endswith("Operator") or c.get("kind", "").endswith("Literal")]
-                    out.append("Decl %s %s %s" % (qstr(d.get("name", "?")), qstr(tystr(d)),
+                    sc = (d.get("storageClass") + " ") if d.get("storageClass") else ""
+                    out.append("Decl %s %s %s" % (qstr(d.get("name", "?")), qstr(sc + tystr(d)),
                                                   "(Some %s)" % self.ex(init[0]) if init else "None"))
                 elif d.get("kind") in ("UsingDirectiveDecl", "StaticAssertDecl", "TypedefDecl", "TypeAliasDecl", "CXXRecordDecl"):
                     pass
